@@ -20,9 +20,11 @@ CLAIM = {
              "ParseError::new is total for checkpoint <= failure position <= end of file; compute_line_number's assert cannot fire "
              "for in-range positions; `clip` underflows exactly when the child span ends before the entry starts, never for spans "
              "inside the entry; building and annotating a book-keeping report is total for valid entry spans; C06_prefix (every "
-             "prefix of every text) is a corollary of totality. NOT proved here: C06_parse / C06_format / C06_load are stated over "
-             "the parser / printer / loader models (Props/C06.lean) and are discharged only where those models are (C05, C11); "
-             "until then parser, printer and loader totality rest on the streams. Wall-clock promptness, real stack depth and "
+             "prefix of every text) is a corollary of totality. C06_load: over the loader model, any load with fuel |readable files|+1 ends in ok or a LoadError, "
+             "never fuel-out or panic, so include cycles end in RecursiveInclude (restates C11_terminates_load). NOT proved: "
+             "C06_parse / C06_format (totality of the ledger parser and of format = parse+print) are only stated, as Props over the "
+             "parser model's entry points; no totality theorem for the combinator parser exists yet, so parser and printer "
+             "totality rest on the streams. Wall-clock promptness, real stack depth and "
              "panics inside third-party crates are observed by the harness (timeouts, catch_unwind, child exit status) but carried "
              "by no theorem. Streams on every run: every prefix (cut at every character) of the corpus ledgers and of generated "
              "ledgers, random strings over the ledger alphabet and arbitrary Unicode, mutated ledgers, all include graphs on <= 3 "
@@ -40,7 +42,7 @@ THEOREMS = [
     "Okane.C06.C06_process", "Okane.C06.C06_process_outcome", "Okane.C06.C06_step",
     "Okane.C06.C06_zero_amount_exchange_rejected", "Okane.C06.C06_boundary_search", "Okane.C06.C06_parse_error_new",
     "Okane.C06.C06_line_number", "Okane.C06.C06_clip_iff", "Okane.C06.C06_clip", "Okane.C06.C06_error_context",
-    "Okane.C06.C06_prefix",
+    "Okane.C06.C06_prefix", "Okane.C06.C06_load",
 ]
 
 TIMEOUT_MS = 10000
@@ -592,9 +594,9 @@ class Runner:
         i = self.new_id(stream)
         self.inproc.append((i, stream, "%s %s" % (i, files_w), info))
 
-    def add_cli(self, stream, cmdname, files_w, info, also_cmd=False):
+    def add_cli(self, stream, cmdname, files_w, info, also_cmd=False, argv=None):
         i = self.new_id(stream)
-        spec = cmdspec(*CLI_CMDS[cmdname])
+        spec = cmdspec(*(argv or CLI_CMDS[cmdname]))
         self.cli.append((i, stream, "%s %s %s" % (i, spec, files_w), dict(info, cmd=cmdname)))
         if also_cmd:
             j = self.new_id(stream)
@@ -825,12 +827,13 @@ def run(chk):
                 "valid ledgers with random token/char insertions, deletions, line swaps; (3) include graphs: all graphs on 1-2 files, sampled "
                 "(quick) / all 512 (thorough) graphs on 3 files, glob/self/.. /diamond/60-file chains and cycles, missing and non-UTF-8 "
                 "targets, on the FakeFileSystem and on real files; (4) generated grammatical ledgers through 12 command lines; (5) numeric "
-                "edge literals and results at the limits of the 96-bit/28-place range. Each case runs in-process (parse with both decorations, "
+                "edge literals and results at the limits of the 96-bit/28-place range; (6) price-db files (every prefix of a valid one, edge "
+                "rates, random and mutated text) through balance/eval --price-db, and valid / malformed expressions given to primitive eval. Each case runs in-process (parse with both decorations, "
                 "format, load, accounts, process + balance/register queries) and/or as a child process of the real binary. A case is "
                 "distinct by (stream, mode, command, input); non-trivial unless it is the empty text.")
     chk.assumptions = [
-        "C06 is PARTIAL at the proof level: parser / printer / loader totality (C06_parse, C06_format, C06_load) is stated but proved only "
-        "where those models live; here it rests on the streams",
+        "C06 is PARTIAL at the proof level: parser / printer totality (C06_parse, C06_format) is stated but not proved; it rests on the "
+        "prefix / random / mutation streams",
         "wall-clock promptness, real stack depth and panics inside third-party crates are observed by the harness (10 s timeout, "
         "catch_unwind, child exit status), no theorem covers them",
         "the model's numbers are exact rationals: rust_decimal results beyond 96 bits / 28 places (where rust_decimal panics) are outside "
@@ -917,6 +920,30 @@ def run(chk):
         R.add_inproc("numeric", enc(text), info)
         for c in ("format", "balance", "register", "balance-range", "eval"):
             R.add_cli("numeric", c, enc(text), info, also_cmd=True)
+
+    # --- (6) price database files (balance --price-db) and expressions given on the command line (primitive eval)
+    small = "2024/01/01 x\n    A  10 EUR\n    B\n\n2024/02/01 y\n    A  1 ACME @ 3 USD\n    B\n"
+    pdb_valid = "P 2024/01/01 EUR 1.1 USD\nP 2024/03/01 EUR 1.2 USD\n\nP 2024-02-01 ACME 2,000.5 EUR\nP 2024/01/01 USD 0.9 EUR\n"
+    pdbs = prefixes(pdb_valid) + ["P 2024/01/01 AAA 0 BBB\n", "P 2024/01/01 EUR 0 USD\n", "P 2024/01/01 EUR 1 EUR\n", "P 2024/01/01 EUR -1 USD\n",
+                                  "P 2024/01/01 EUR 1.1 USD", "P 2024/01/01 EUR (1 USD)\n", "P 2024/13/01 EUR 1 USD\n", "\r\n\r\nP 2024/01/01 EUR 1.1 USD\r\n",
+                                  "P 2024/01/01 EUR %d USD\n" % MAX96, "P 2024/01/01 EUR 0.0000000000000000000000000001 USD\n", "; comment\n",
+                                  "P 2024/01/01 日本 1 円\n", "P  2024/01/01  EUR  1.1  USD\n", "P 2024/01/01 EUR 1.1 USD\n" * 300]
+    pdbs += [gen_random_text(rng) for _ in range(150 if quick else 3000)]
+    pdbs += [mutate(rng, pdb_valid) for _ in range(150 if quick else 3000)]
+    for t in pdbs:
+        fw = "root=main.ledger main.ledger=%s prices.db=%s" % (enc(small), enc(t))
+        for nm, argv in (("pdb-balance-x", ("balance", "--price-db", "@/prices.db", "-X", "USD", "--now", "2024-12-31", "@")),
+                         ("pdb-balance-hist", ("balance", "--price-db", "@/prices.db", "-X", "EUR", "--historical", "@")),
+                         ("pdb-eval-x", ("primitive", "eval", "--price-db", "@/prices.db", "--date", "2024-06-01", "-X", "USD", "-f", "@", "1 ACME"))):
+            R.add_cli("pricedb", nm, fw, {"nontrivial": bool(t)}, also_cmd=True, argv=argv)
+    exprs = ["1 USD + 2 USD", "(1 EUR * 3)", "1 +", ")", "((", "1 USD / 0", "1 / 0", "10 EUR", "ACME", "1 ACME", "-", "--1", "1,23", "",
+             nested(MAX_NEST), "1 USD " * 50, "1 日本", "(1 USD + 2 EUR) * 2", "1 USD * 1 USD", "0 / 0", str(MAX96) + " USD", "1 USD;"]
+    exprs += ["".join(rng.choice(["1", "2.5", " ", "(", ")", "+", "-", "*", "/", "USD", "EUR", "ACME", ",", "."]) for _ in range(rng.randint(1, 12)))
+              for _ in range(200 if quick else 5000)]
+    for e in exprs:
+        for x in (None, "USD"):
+            argv = ("primitive", "eval", "--date", "2024-06-01") + (("-X", x) if x else ()) + ("-f", "@", "--", e)
+            R.add_cli("eval-expr", "eval-expr", enc(small), {"expr": e, "nontrivial": bool(e.strip())}, also_cmd=True, argv=argv)
 
     R.run()
     for c in chk.inexact_cases[:2]:
